@@ -877,6 +877,10 @@ class DataLoader(object):
         info_by_type = {}
         time_set = None
         for type, entry in data.items():
+            # Message types without a payload class have no messages and no P1 time. Leave them unmodified.
+            if entry.message_class is None:
+                continue
+
             default = entry.message_class()
             if 'p1_time' in default.__dict__ and (message_types is None or entry.message_type in message_types):
                 p1_time = np.array([float(m.p1_time) for m in entry.messages])
